@@ -255,6 +255,132 @@ def keyData : List Vgm.Op → List Nat
   | .write 0x52 _ 0x28 dat :: r => dat :: keyData r
   | _ :: r => keyData r
 
+/-! ### sample time stamps of the log -/
+def delaySum : List Vgm.Op → Nat
+  | [] => 0
+  | .delay n :: r => n + delaySum r
+  | _ :: r => delaySum r
+
+/-- every op that is not a delay, with the sum of the delays before it (counted from `t`) -/
+def stamps : Nat → List Vgm.Op → List (Nat × Vgm.Op)
+  | _, [] => []
+  | t, .delay n :: r => stamps (t + n) r
+  | t, o :: r => (t, o) :: stamps t r
+
+def isWrite : Vgm.Op → Bool
+  | .write .. => true
+  | _ => false
+
+def isDelay : Vgm.Op → Bool
+  | .delay _ => true
+  | _ => false
+
+theorem stamps_append (t : Nat) (a b : List Vgm.Op) :
+    stamps t (a ++ b) = stamps t a ++ stamps (t + delaySum a) b := by
+  induction a generalizing t with
+  | nil => simp [stamps, delaySum]
+  | cons x r ih =>
+    cases x <;> simp [stamps, delaySum, ih, Nat.add_assoc]
+
+theorem delaySum_append (a b : List Vgm.Op) : delaySum (a ++ b) = delaySum a + delaySum b := by
+  induction a with
+  | nil => simp [delaySum]
+  | cons x r ih => cases x <;> simp [delaySum, ih, Nat.add_assoc]
+
+theorem stamps_noDelay (t : Nat) (o : List Vgm.Op) (h : ∀ x ∈ o, isDelay x = false) :
+    stamps t o = o.map (fun x => (t, x)) ∧ delaySum o = 0 := by
+  induction o with
+  | nil => simp [stamps, delaySum]
+  | cons x r ih =>
+    have hx := h x (by simp)
+    have hr := ih (fun y hy => h y (by simp [hy]))
+    cases x <;> simp_all [stamps, delaySum, isDelay]
+
+theorem playStep_ops (d : Data) (song : Song) (s : Drv) :
+    (∀ x ∈ (playStep d song s).2.1, isDelay x = false) ∧
+    (s.seqCounter < 0 → ∀ x ∈ (playStep d song s).2.1, isWrite x = false) := by
+  have hl : ∀ (s' : Drv), (stepLoop s').2 = [] ∨ (stepLoop s').2 = [Vgm.Op.setLoop] := by
+    intro s'; unfold stepLoop; split <;> simp
+  have hout : (playStep d song s).2.1 =
+      (stepSeq d song s).2.map Wr.toOp ++ (stepLoop (stepPcm (stepSeq d song s).1)).2 := by
+    unfold playStep
+    simp only
+    split <;> rfl
+  rw [hout]
+  constructor
+  · intro x hx
+    rcases List.mem_append.mp hx with h | h
+    · obtain ⟨w, _, rfl⟩ := List.mem_map.mp h
+      rfl
+    · rcases hl (stepPcm (stepSeq d song s).1) with e | e <;> rw [e] at h <;> simp at h
+      subst h; rfl
+  · intro hneg x hx
+    have hs : (stepSeq d song s).2 = [] := by
+      unfold stepSeq
+      have : ¬ s.seqCounter ≥ 0 := by omega
+      simp [this]
+    rw [hs] at hx
+    simp at hx
+    rcases hl (stepPcm (stepSeq d song s).1) with e | e <;> rw [e] at hx <;> simp at hx
+    subst hx; rfl
+
+theorem counted_exists (t : Int) (h : 0 ≤ t) : ∃ k : Nat, Counted t k := by
+  refine ⟨((t + 734) / 735).toNat, ?_⟩
+  unfold Counted
+  have : (((t + 734) / 735).toNat : Int) = (t + 734) / 735 := Int.toNat_of_nonneg (by omega)
+  rw [this]
+  omega
+
+/-- **Every register write of the export loop sits on the 60 Hz grid**: in the op list the
+loop produces, the delays before any `write` sum to a multiple of 735 samples. -/
+theorem exportLoop_on_grid (d : Data) (song : Song) (fuel : Nat) (s : Drv) (elapsed delta : Int) (acc : List Vgm.Op)
+    (hinv : ClockInv (elapsed, s.seqCounter, s.pcmCounter)) (hd : 0 ≤ delta)
+    (hsum : (delaySum acc : Int) + delta = elapsed)
+    (hacc : ∀ p ∈ stamps 0 acc, isWrite p.2 = true → p.1 % 735 = 0) :
+    ∀ p ∈ stamps 0 (exportLoop d song fuel s elapsed delta acc).2, isWrite p.2 = true → p.1 % 735 = 0 := by
+  induction fuel generalizing s elapsed delta acc with
+  | zero => simpa [exportLoop] using hacc
+  | succ fuel ih =>
+    unfold exportLoop
+    by_cases hmax : elapsed ≥ maxTime
+    · simpa [hmax] using hacc
+    · simp only [hmax, if_false]
+      obtain ⟨k, hk⟩ := counted_exists elapsed hinv.1
+      have hp := playStep_inv d song s elapsed k hinv hk
+      have hops := playStep_ops d song s
+      have hfire := fires_iff _ hinv
+      generalize hps : playStep d song s = r at hp hops
+      obtain ⟨s', o, dl⟩ := r
+      simp only at hp hops hfire ⊢
+      -- the stamps of the extended list
+      have hnd := stamps_noDelay (0 + delaySum acc + delta.toNat) o hops.1
+      have hst : stamps 0 (acc ++ Vgm.Op.delay delta.toNat :: o) =
+          stamps 0 acc ++ o.map (fun x => (0 + delaySum acc + delta.toNat, x)) := by
+        rw [stamps_append]
+        simp only [stamps]
+        rw [hnd.1]
+      have hds : delaySum (acc ++ Vgm.Op.delay delta.toNat :: o) = delaySum acc + delta.toNat := by
+        rw [delaySum_append]
+        simp [delaySum, hnd.2]
+      have hnew : ∀ p ∈ stamps 0 (acc ++ Vgm.Op.delay delta.toNat :: o), isWrite p.2 = true → p.1 % 735 = 0 := by
+        intro p hpm hw
+        rw [hst] at hpm
+        rcases List.mem_append.mp hpm with h | h
+        · exact hacc p h hw
+        · obtain ⟨x, hx, rfl⟩ := List.mem_map.mp h
+          simp only at hw ⊢
+          by_cases hs : s.seqCounter ≥ 0
+          · have := hfire.mp hs
+            omega
+          · have := hops.2 (by omega) x hx
+            rw [this] at hw
+            exact absurd hw (by simp)
+      split
+      · exact hnew
+      · split
+        · exact hnew
+        · apply ih s' (elapsed + dl) dl _ hp.1 (by omega) (by rw [hds]; push_cast; omega) hnew
+
 /-! ### the tempo accumulator -/
 theorem pow_shift : (2 : Nat) ^ md_tempo_shift = 128 := by decide
 
